@@ -611,7 +611,7 @@ def _pulay_mech(case, member, alt_cache, sett_fn, e_batch, tolE, innocent, P_row
     row's density with plain iteration (no mixing, no DIIS), stays converged at the batch value."""
     from vlib import run
 
-    if case.get("sp2") or case["conv"][0] != 2 or innocent <= 0:
+    if case["conv"][0] != 2 or innocent <= 0:        # (SP2 as density builder does not matter: the DIIS reset is the same code)
         return None
     key = (member["name"], tuple(np.round(member["X"].reshape(-1), 9)))
     if key not in alt_cache:
@@ -734,8 +734,7 @@ def _run_sp(case):
                     acc.count("scf_cycle_differences_at_tight_eps_recorded_only")
 
             def mech_fn(bad_keys, k=k, i=i, innocent=innocent, mols=mols, b=b):
-                if case.get("sp2"):
-                    return None      # the row-4 key names the non-terminating loop only (loop-bound trips), never a value mismatch
+                # (the row-4 key names the non-terminating SP2 loop only - loop-bound trips - never a value mismatch)
                 return _pulay_mech(case, mems[i], alt_cache, _settings, float(b["Etot"][k]), tol["E"], innocent, P_row=b["dm"][k])
 
             ok = _compare_row(acc, case, tol, alone[i], b, k, mems[i], "alone-vs-batch",
